@@ -24,4 +24,7 @@ INVARIANT Accepted
 INVARIANT NoLiveDrop
 INVARIANT CountIsPhysical
 INVARIANT DefaultsAgree
+PROPERTY ReadersLeaveEntriesAlone
+PROPERTY OnlyExpiredOrAddressedRemoved
+PROPERTY SettersOnly
 CHECK_DEADLOCK FALSE
